@@ -21,19 +21,19 @@ theorem procRes_fst (x : Parser × PRes) : (procRes x).1 = x.1 := by
 theorem procRes_not_need (x : Parser × PRes) : (procRes x).2 ≠ some .need := by
   unfold procRes; rcases x with ⟨q, r⟩; cases r <;> simp
 
-theorem stashRest_buf (p : Parser) (s : Byte) : (stashRest p s).1.buf = p.buf := by
+theorem stashRest_buf (p : Parser) (s : Bool) : (stashRest p s).1.buf = p.buf := by
   unfold stashRest; dsimp only
   split
   · rfl
   · split <;> rfl
 
-theorem stashRest_bix (p : Parser) (s : Byte) : (stashRest p s).1.bix = p.bix := by
+theorem stashRest_bix (p : Parser) (s : Bool) : (stashRest p s).1.bix = p.bix := by
   unfold stashRest; dsimp only
   split
   · rfl
   · split <;> rfl
 
-theorem stashRest_stash_lt (p : Parser) (s : Byte) (h : p.stash.length < stashSize) :
+theorem stashRest_stash_lt (p : Parser) (s : Bool) (h : p.stash.length < stashSize) :
     (stashRest p s).1.stash.length < stashSize := by
   unfold stashRest; dsimp only
   split
@@ -53,6 +53,11 @@ theorem takeLine_bix (p : Parser) (e : Nat) : (takeLine p e).bix = p.bix + e := 
 theorem takeLine_sentinel (p : Parser) (e : Nat) : (takeLine p e).sentinel = 0 := by
   unfold takeLine; split <;> rfl
 
+theorem takeLine_eolp (p : Parser) (e : Nat) : (takeLine p e).eolp = p.eolp := by
+  unfold takeLine; split <;> rfl
+
+theorem doProc_eolp (p : Parser) : (doProc p).1.eolp = p.eolp := rfl
+
 theorem takeLine_stash_lt (p : Parser) (e : Nat) (h : p.stash.length < stashSize) :
     (takeLine p e).stash.length < stashSize := by
   unfold takeLine
@@ -68,15 +73,21 @@ theorem preChop_buf (p : Parser) : (preChop p).buf = p.buf := by
 theorem preChop_stash (p : Parser) : (preChop p).stash = p.stash := by
   unfold preChop; split <;> rfl
 
+theorem preChop_eolp (p : Parser) : (preChop p).eolp = false := by
+  unfold preChop
+  split
+  · rfl
+  · rename_i h; unfold Marked at h; simpa using h
+
 theorem preChop_bix_ge (p : Parser) : p.bix ≤ (preChop p).bix := by
   unfold preChop; split <;> simp
 
 theorem chopR_buf (p : Parser) : (chopR p).1.buf = p.buf := by
   unfold chopR
   split
-  · exact stashRest_buf p 0
+  · exact stashRest_buf p false
   · split
-    · exact stashRest_buf p 1
+    · exact stashRest_buf p true
     · dsimp only
       split
       · rw [procRes_fst, doProc_buf, takeLine_buf]
@@ -85,16 +96,18 @@ theorem chopR_buf (p : Parser) : (chopR p).1.buf = p.buf := by
 theorem round_buf (p : Parser) : (round p).1.buf = p.buf := by
   unfold round
   split
-  · rw [procRes_fst, doProc_buf]
+  · split
+    · rw [procRes_fst, doProc_buf]; rfl
+    · rfl
   · rw [chopR_buf, preChop_buf]
 
 theorem chopR_stash_lt (p : Parser) (h : p.stash.length < stashSize) :
     (chopR p).1.stash.length < stashSize := by
   unfold chopR
   split
-  · exact stashRest_stash_lt p 0 h
+  · exact stashRest_stash_lt p false h
   · split
-    · exact stashRest_stash_lt p 1 h
+    · exact stashRest_stash_lt p true h
     · dsimp only
       split
       · rw [procRes_fst, doProc_stash]; simp [stashSize]
@@ -104,10 +117,12 @@ theorem round_stash_lt (p : Parser) (h : p.stash.length < stashSize) :
     (round p).1.stash.length < stashSize := by
   unfold round
   split
-  · rw [procRes_fst, doProc_stash]; simp [stashSize]
+  · split
+    · rw [procRes_fst, doProc_stash]; simp [stashSize]
+    · exact h
   · exact chopR_stash_lt _ (by rw [preChop_stash]; exact h)
 
-theorem mu_unmarked (p : Parser) (h : p.stash.length = 0) : mu p = p.buf.length - p.bix := by
+theorem mu_unmarked (p : Parser) (h : p.eolp = false) : mu p = p.buf.length - p.bix := by
   unfold mu Marked; simp [h]
 
 theorem mu_le (p : Parser) : mu p ≤ p.buf.length - p.bix + 1 := by
@@ -116,7 +131,7 @@ theorem mu_le (p : Parser) : mu p ≤ p.buf.length - p.bix + 1 := by
 theorem mu_ge (p : Parser) : p.buf.length - p.bix ≤ mu p := by
   unfold mu; omega
 
-theorem chopR_mu (p : Parser) (h : (chopR p).2 ≠ some .need) :
+theorem chopR_mu (p : Parser) (hu : p.eolp = false) (h : (chopR p).2 ≠ some .need) :
     mu (chopR p).1 < p.buf.length - p.bix := by
   unfold chopR at h ⊢
   split at h
@@ -131,22 +146,25 @@ theorem chopR_mu (p : Parser) (h : (chopR p).2 ≠ some .need) :
       rw [if_neg (by omega)]
       dsimp only at h ⊢
       split
-      · rw [procRes_fst, mu_unmarked _ (by rw [doProc_stash]; rfl), doProc_buf, doProc_bix,
+      · rw [procRes_fst, mu_unmarked _ (by rw [doProc_eolp, takeLine_eolp]; exact hu), doProc_buf, doProc_bix,
           takeLine_buf, takeLine_bix]
         omega
-      · rename_i hs
-        rw [mu_unmarked _ (by simp only [ne_eq, Decidable.not_not] at hs; exact hs), takeLine_buf, takeLine_bix]
+      · rw [mu_unmarked _ (by rw [takeLine_eolp]; exact hu), takeLine_buf, takeLine_bix]
         omega
 
 theorem round_mu (p : Parser) (h : (round p).2 ≠ some .need) : mu (round p).1 < mu p := by
   unfold round at h ⊢
   split
   · rename_i hc
-    rw [procRes_fst, mu_unmarked _ (by rw [doProc_stash]; rfl), doProc_buf, doProc_bix]
-    unfold mu; rw [if_pos hc.1]; dsimp only; omega
+    have hmu : mu p = p.buf.length - p.bix + 1 := by unfold mu; rw [if_pos hc.1]
+    split
+    · rw [procRes_fst, mu_unmarked _ (by rw [doProc_eolp]; rfl), doProc_buf, doProc_bix, hmu]
+      show p.buf.length - p.bix < _; omega
+    · rw [mu_unmarked _ rfl, hmu]
+      show p.buf.length - p.bix < _; omega
   · rename_i hc
     rw [if_neg hc] at h
-    have := chopR_mu _ h
+    have := chopR_mu _ (preChop_eolp p) h
     rw [preChop_buf] at this
     have h1 := preChop_bix_ge p
     have h2 := mu_ge p
